@@ -255,6 +255,7 @@ class Gate(object):
 
     def __init__(self, get_sched):
         self.get_sched = get_sched
+        self.write_yield = False      # exploration only: every bulk_write is a preemption point too
 
     def _need(self, core):
         return not core.cur
@@ -265,7 +266,9 @@ class Gate(object):
             s.boundary('read', lambda: bool(core.dev.wire) or core.force_timeout)
 
     def before_write(self, core):
-        pass
+        s = self.get_sched()
+        if self.write_yield and s is not None and current_name() in s.th:
+            s.boundary('write', lambda: True)
 
     async def before_read_async(self, core):
         s = self.get_sched()
@@ -273,4 +276,6 @@ class Gate(object):
             await s.aboundary('read', lambda: bool(core.dev.wire) or core.force_timeout)
 
     async def before_write_async(self, core):
-        pass
+        s = self.get_sched()
+        if self.write_yield and s is not None and current_name() in s.th:
+            await s.aboundary('write', lambda: True)
